@@ -419,17 +419,29 @@ void ICACHE_FLASH_ATTR supla_esp_mqtt_conn_recv_cb(void *arg, char *pdata,
   // supla_esp_mqtt_conn_recv_cb callback cannot interrupt mqtt_sync(). If it
   // turns out otherwise, you have to use an additional intermediate buffer.
 
-  if (len + supla_esp_mqtt_vars->recv_len > MQTT_RECVBUF_SIZE) {
-    supla_log(LOG_DEBUG, "MQTT recv buffer is too small! %i",
-              len + supla_esp_mqtt_vars->recv_len - MQTT_RECVBUF_SIZE);
-    return;
-  }
+  // MQTT-C expects new data at client.recv_buffer.curr: a partially received
+  // packet stays in front of it. A segment that is longer than the free space
+  // is handed over in pieces; mqtt_sync() consumes complete packets in between.
+  struct mqtt_client *client = &supla_esp_mqtt_vars->client;
 
-  memcpy(&supla_esp_mqtt_vars->recvbuf[supla_esp_mqtt_vars->recv_len], pdata,
-         len);
-  supla_esp_mqtt_vars->recv_len += len;
+  do {
+    size_t size = len;
 
-  mqtt_sync(&supla_esp_mqtt_vars->client);
+    if (client->recv_buffer.curr == NULL) {
+      return;
+    }
+
+    if (size > client->recv_buffer.curr_sz) {
+      size = client->recv_buffer.curr_sz;
+    }
+
+    memcpy(client->recv_buffer.curr, pdata, size);
+    supla_esp_mqtt_vars->recv_len = size;
+    pdata += size;
+    len -= size;
+
+    mqtt_sync(client);
+  } while (len > 0 && client->error == MQTT_OK);
 }
 
 void ICACHE_FLASH_ATTR supla_esp_mqtt_on_message_received(
